@@ -11,7 +11,9 @@ RULE = ("threshold: every keep/reject pattern of <=6 (quick: <=5) strictly incre
         "support intervals. Oracle = the property (kept set, new support contains kept / excludes rejected, inside the old "
         "support, midpoint boundaries, restrict(original, new support) == result); kernel outputs compared with the Lean "
         "models of jitthreshold / jitremove_nan. distinct = distinct (timestamps, support, pattern, method)")
-PROVED = ("removeNan_runs (dropna support: starts/ends are kept samples, equally many); threshold_multi_epoch_witness and "
+PROVED = ("removeNan_cover (dropna: sample i is kept iff it lies in one of the returned runs [start k, end k] - every kept sample "
+          "inside the new support, no dropped one; any mask), removeNan_runs (starts/ends are kept samples, equally many); "
+          "threshold_multi_epoch_witness and "
           "threshold_single_sample_witness (the two open known findings, proved on the model)")
 NOT_PROVED = ("threshold support theorem for single-interval supports, dropna +1us singleton handling: oracle + correspondence only")
 ASSUMPTIONS = ["timestamps strictly increasing by at least 2 us (the +1us singleton widening of dropna assumes samples farther apart than 1us)"]
